@@ -15,7 +15,7 @@ fi
 for name in "$@"; do
   d="$repo/tests/testdata/kddp/$name"; W=$(mktemp -d)
   cp -r "$d"/. "$W/"; main=$(ls "$W"/*.ddp | head -1)
-  (cd "$W" && DDPPATH="$C/ddp" "$C/kddp" kompiliere "$(basename "$main")" -o p.o --list-defs-linken=false >/dev/null 2>comp.err) || { echo "$name: COMPILE FAILED $(head -2 "$W/comp.err")"; rm -rf "$W"; continue; }
+  (cd "$W" && DDPPATH="$C/ddp" "$C/kddp" kompiliere "$(basename "$main")" -o p.o --list-defs-linken=false $KFLAGS >/dev/null 2>comp.err) || { echo "$name: COMPILE FAILED $(head -2 "$W/comp.err")"; rm -rf "$W"; continue; }
   (cd "$W" && gcc -o p p.o "$C/listdefs.o" "$C/libstd.a" "$C/runtime/libddpruntime.a" "$C/runtime/source/main.o" -lm 2>link.err) || { echo "$name: LINK FAILED $(head -2 "$W/link.err")"; rm -rf "$W"; continue; }
   (cd "$W" && ${RUN_WRAP:-} ./p > out.txt 2> err.txt < /dev/null); rc=$?
   if diff -q "$W/out.txt" "$d/expected.txt" >/dev/null; then r=same; else r=DIFFERENT; fi
